@@ -9,4 +9,4 @@ T=/tmp/gv/t-$N
 LD_LIBRARY_PATH=$(rustc +nightly --print sysroot)/lib RUSTFLAGS="-Zmir-opt-level=0 -Awarnings -C debug-assertions=on -C overflow-checks=on" RUSTC_WORKSPACE_WRAPPER=/verif/driver/target/debug/griddle-facts VERIF_CRATE=griddle VERIF_FACTS_OUT=/tmp/gv/$N.json CARGO_TARGET_DIR=$T CARGO_NET_OFFLINE=true cargo +nightly check --offline --lib --features rayon,serde 2>&1 | tail -1
 rm -rf $T
 git -C /repo checkout -- . && git -C /repo clean -fdq -- src
-cd /verif && python3 tools/run_facts.py /tmp/gv/$N.json 2>&1 | grep "^   [A-Z]\|CRASH" -A1 | cut -c1-300
+cd /verif && python3 tools/run_facts.py /tmp/gv/$N.json 2>&1 | grep "^   [A-Z]\|CRASH\|Error" -A1 | cut -c1-300
